@@ -398,3 +398,40 @@ def confirm_values(ctx: Ctx, b: PyBuild, fname: str, order: str, bad, slots, spr
             continue
         confirmed.append((name, got, ref, c))
     return confirmed
+
+
+def boundary_points(rm: RefModel, pt: dict, limit: int = 6):
+    """copies of `pt` that sit exactly on the boundary of a comparison between a state / parameter
+    and a literal or another state / parameter (Ge vs Gt, Le vs Lt are only told apart there)"""
+    out = []
+    inputs = set(rm.states) | set(rm.params)
+
+    def walk(e):
+        if len(out) >= limit:
+            return
+        tag = e[0]
+        if tag == "rel":
+            a, b = e[2], e[3]
+            for u, v in ((a, b), (b, a)):
+                if u[0] == "var" and u[1] in inputs:
+                    if v[0] == "num":
+                        q = dict(pt)
+                        q[u[1]] = float(mpf(v[1]) * mpf(10) ** v[2])
+                        out.append(q)
+                    elif v[0] == "neg" and v[1][0] == "num":
+                        q = dict(pt)
+                        q[u[1]] = -float(mpf(v[1][1]) * mpf(10) ** v[1][2])
+                        out.append(q)
+                    elif v[0] == "var" and v[1] in inputs and v[1] != u[1]:
+                        q = dict(pt)
+                        q[u[1]] = pt[v[1]]
+                        out.append(q)
+                    break
+        if tag in ("num", "var", "pi", "int"):
+            return
+        for x in (e[2:] if tag in ("fn", "rel", "ccond") else e[1:]):
+            walk(x)
+
+    for e in rm.assigns.values():
+        walk(e)
+    return out[:limit]
